@@ -2,7 +2,7 @@ SPECIFICATION Spec
 CONSTANTS Addrs = {"A1", "A2"} Keys = {"K1", "K2"} Signers = {"S1", "S2"} OwnSigner = "S1" MaxVer = 2 Datas = {"a", "b"} UData = {"a", "b"}
           Forged = TRUE Sizes = TRUE Multi = TRUE Base = 2 Scale = 1 MaxRot = 4 MaxClock = 6 InitCloser = 7 MaxCloser = 8
           MaxIssued = 6 PeerStore = TRUE Locals = TRUE EqReplaces = TRUE OtherTokens = {"foreign", "junk"} MaxStored = 12
-          KeepSecrets = 2 CleanAll = TRUE
+          KeepSecrets = 2 CleanAll = TRUE Validity = 0 RotatePeriod = 0 ExpiredYields = FALSE
 INVARIANT TypeOK
 INVARIANT StoreNeedsOwnFreshToken
 INVARIANT Limits
